@@ -16,6 +16,71 @@ FIN = 'kopf.zalando.org/KopfFinalizerMarker'
 HS = ['d1', 'd2', 't1']
 
 
+def _mk_sync_daemon(sim: Any, hid: str, c: dict[str, Any]):
+    # a synchronous daemon runs in a thread of the executor (a virtual thread here): it cannot be cancelled, only asked
+    from sim import vthreads
+
+    def body(stopped, **_):
+        sim.rec('d.enter', h=hid)
+        how = 'returned'
+        try:
+            if c['reaction'] == 'selfexit':
+                stopped.wait(c['after'])
+                if stopped:
+                    sim.rec('d.flagseen', h=hid, reasons=str(stopped.reason))
+                return
+            stopped.wait()
+            sim.rec('d.flagseen', h=hid, reasons=str(stopped.reason))
+            if c['reaction'] == 'obey':
+                if c.get('after'): vthreads.sleep(c['after'])
+                return
+            vthreads.sleep(5 if c['reaction'] == 'cancel' else 25)      # sits in a blocking call: nothing reaches it
+        except vthreads.Killed:
+            how = 'killed'; raise
+        finally:
+            sim.rec('d.exit', h=hid, how=how)
+    body.__name__ = body.__qualname__ = hid
+    return body
+
+def make_daemon_fn(sim: Any, hid: str, c: dict[str, Any]):
+    """A scripted daemon function (coroutine, or plain function for a thread) that records its life: d.enter / d.flagseen / d.cancel / d.exit."""
+    import asyncio
+    if c.get('sync'):
+        return _mk_sync_daemon(sim, hid, c)
+
+    async def body(stopped, **_):
+        sim.rec('d.enter', h=hid)
+        how = 'returned'
+        try:
+            if c['reaction'] == 'selfexit':      # returns on its own after a while; notes the stop flag if it comes first
+                await stopped.wait(c['after'])
+                if stopped:
+                    sim.rec('d.flagseen', h=hid, reasons=str(stopped.reason))
+                return
+            await stopped.wait()
+            sim.rec('d.flagseen', h=hid, reasons=str(stopped.reason))
+            if c['reaction'] == 'obey':
+                if c.get('after'): await asyncio.sleep(c['after'])
+                return
+            while True:
+                try:
+                    await asyncio.get_running_loop().create_future()
+                except asyncio.CancelledError:
+                    sim.rec('d.cancel', h=hid)
+                    if c['reaction'] == 'cancel':
+                        how = 'cancelled'; raise
+                    # 'ignore': swallows cancellation and keeps going
+        except asyncio.CancelledError:
+            if how != 'cancelled':
+                sim.rec('d.cancel', h=hid); how = 'cancelled'
+            raise
+        finally:
+            sim.rec('d.exit', h=hid, how=how)
+    body.__name__ = body.__qualname__ = hid
+    return body
+
+
+
 def run_scenario(sc: dict[str, Any]) -> dict[str, Any]:
     import asyncio
     import kopf
@@ -25,66 +90,7 @@ def run_scenario(sc: dict[str, Any]) -> dict[str, Any]:
     try:
         reg = sim.registry()
 
-        def mk_sync_daemon(hid: str, c: dict[str, Any]):
-            # a synchronous daemon runs in a thread of the executor (a virtual thread here): it cannot be cancelled, only asked
-            from sim import vthreads
-
-            def body(stopped, **_):
-                sim.rec('d.enter', h=hid)
-                how = 'returned'
-                try:
-                    if c['reaction'] == 'selfexit':
-                        stopped.wait(c['after'])
-                        if stopped:
-                            sim.rec('d.flagseen', h=hid, reasons=str(stopped.reason))
-                        return
-                    stopped.wait()
-                    sim.rec('d.flagseen', h=hid, reasons=str(stopped.reason))
-                    if c['reaction'] == 'obey':
-                        if c.get('after'): vthreads.sleep(c['after'])
-                        return
-                    vthreads.sleep(5 if c['reaction'] == 'cancel' else 25)      # sits in a blocking call: nothing reaches it
-                except vthreads.Killed:
-                    how = 'killed'; raise
-                finally:
-                    sim.rec('d.exit', h=hid, how=how)
-            body.__name__ = body.__qualname__ = hid
-            return body
-
-        def mk_daemon(hid: str, c: dict[str, Any]):
-            if c.get('sync'):
-                return mk_sync_daemon(hid, c)
-
-            async def body(stopped, **_):
-                sim.rec('d.enter', h=hid)
-                how = 'returned'
-                try:
-                    if c['reaction'] == 'selfexit':      # returns on its own after a while; notes the stop flag if it comes first
-                        await stopped.wait(c['after'])
-                        if stopped:
-                            sim.rec('d.flagseen', h=hid, reasons=str(stopped.reason))
-                        return
-                    await stopped.wait()
-                    sim.rec('d.flagseen', h=hid, reasons=str(stopped.reason))
-                    if c['reaction'] == 'obey':
-                        if c.get('after'): await asyncio.sleep(c['after'])
-                        return
-                    while True:
-                        try:
-                            await asyncio.get_running_loop().create_future()
-                        except asyncio.CancelledError:
-                            sim.rec('d.cancel', h=hid)
-                            if c['reaction'] == 'cancel':
-                                how = 'cancelled'; raise
-                            # 'ignore': swallows cancellation and keeps going
-                except asyncio.CancelledError:
-                    if how != 'cancelled':
-                        sim.rec('d.cancel', h=hid); how = 'cancelled'
-                    raise
-                finally:
-                    sim.rec('d.exit', h=hid, how=how)
-            body.__name__ = body.__qualname__ = hid
-            return body
+        mk_daemon = lambda hid, c: make_daemon_fn(sim, hid, c)
 
         def mk_timer(hid: str, c: dict[str, Any]):
             async def tick(**_):
@@ -413,7 +419,7 @@ def tlc_scenarios(seed: int, num: int, depth: int = 150) -> list[dict[str, Any]]
         shutil.rmtree(scratch, ignore_errors=True)
 
 
-_RE = re.compile(r'<<"MONITOR",\s*(\d+),\s*"([^"]*)",\s*"([^"]*)">>')
+_RE = re.compile(r'<<\s*"MONITOR",\s*(\d+),\s*"([^"]*)",\s*"([^"]*)"\s*>>')
 
 
 def judge(traces: list[dict[str, Any]], rep: Any, focus: str = '') -> dict[str, str]:
